@@ -415,6 +415,44 @@ func runC10(r *Run) {
 		}
 	})
 
+	r.rule("R10", "the proxy set is the operator's: nothing in the package assigns Config.TrustProxyConfig as a whole or one of its configured members (Proxies, Loopback, Private, LinkLocal) — only the lookup tables derived from them are written; a fallback that replaces the configuration when the address list is empty throws away a set given by classes alone, and ties the app to a mutable package default (E11, who-may-write)", func() {
+		derived := map[string]bool{"ips": true, "ranges": true}
+		n := 0
+		var bad []string
+		r.P.AllFuncs("", func(f *ssa.Function) {
+			for _, b := range f.Blocks {
+				for _, in := range b.Instrs {
+					st, ok := in.(*ssa.Store)
+					if !ok {
+						continue
+					}
+					fa, ok := st.Addr.(*ssa.FieldAddr)
+					if !ok {
+						continue
+					}
+					fv := fieldVar(fa.X.Type(), fa.Field)
+					if fv == nil {
+						continue
+					}
+					switch {
+					case fieldOwner(fv) == "Config" && fv.Name() == "TrustProxyConfig":
+						n++
+						bad = append(bad, r.pos(in)+" (the whole configuration)")
+					case fieldOwner(fv) == "TrustProxyConfig":
+						n++
+						if !derived[fv.Name()] {
+							bad = append(bad, r.pos(in)+" ("+fv.Name()+")")
+						}
+					}
+				}
+			}
+		})
+		r.atLeast("writes into TrustProxyConfig", n, 2)
+		sort.Strings(bad)
+		r.check(len(bad) == 0, "TrustProxyConfig:only-derived-tables-are-written", "", "only the ips / ranges tables are assigned",
+			"the configured proxy set is overwritten by the package: "+strings.Join(bad, ", ")+" — with `TrustProxyConfig{Loopback: true}` (no address list) the classes the operator enabled are dropped, or replaced by a package-level default another part of the program may have changed; peers inside the configured set lose the forwarded values, peers outside it can gain them")
+	})
+
 	r.rule("R9", "the host name is the Host header without its port: where the root package cuts a host at a ':' it does so through net.SplitHostPort or in a function that looks at the bracket of an IPv6 literal — `Host: [2001:db8::1]` carries colons and no port (E1, belief rule shared with C18-R12)", func() {
 		hostColonCutRule(r, "", 1, "so Hostname() answers `[2001:db8:` for `Host: [2001:db8::1]`, a value that is neither the host nor derived from the connection")
 	})
